@@ -35,7 +35,7 @@ NAME = "repro"
 DRIVER_SRCS = ["repro_driver.cpp"]
 MODEL_FAMILY = "repro"
 MODE = "diff"
-BUDGET = {"quick": 140, "thorough": 1500}
+BUDGET = {"quick": 140, "thorough": 6000}
 
 MAIN_KEYS = [0, 1, 2, 3, 4, 5]
 NOISE_KEYS = [100, 101, 102, 103]
